@@ -104,3 +104,33 @@ Fixpoint failing_from (i : nat) (l : list bool) : list nat :=
   | b :: t => (if b then [] else [i]) ++ failing_from (S i) t
   end.
 Definition failing (l : list bool) : list nat := failing_from 0 l.
+
+(* ---------- several upstream streams ---------- *)
+Definition chk_chain_perm (cs : list command) (tbl : batch) (cuts : list (list nat)) (expect : batch) : bool :=
+  forallb (fun sizes =>
+             batch_perm_eqb (concat (run_chain (map (fun c => Stage c (fun x => x)) cs) (cut_at sizes tbl))) expect)
+          cuts.
+
+Definition info_eqb (a b : dpinfo) : bool :=
+  Bool.eqb (i_order_matters a) (i_order_matters b) && Bool.eqb (i_ignores_order a) (i_ignores_order b)
+  && Bool.eqb (i_bottleneck a) (i_bottleneck b) && Bool.eqb (i_twopass a) (i_twopass b)
+  && Bool.eqb (i_generates a) (i_generates b).
+
+(* the flags the real constructors declare = the table flags_of *)
+Definition chk_flags (cases : list (kind * dpinfo)) : bool :=
+  forallb (fun c => info_eqb (flags_of (fst c)) (snd c)) cases.
+
+(* the decision of the real CanParallelSearch on a chain = can_parallel on its flags; the
+   chain is given by the kinds of its commands, its observed flags must be those of the kinds *)
+Definition chk_planner (cases : list (list kind * list dpinfo * (bool * nat))) : list nat :=
+  let ok (c : list kind * list dpinfo * (bool * nat)) :=
+    let '(ks, fl, (b, i)) := c in
+    list_eqb info_eqb (map flags_of ks) fl
+    && (let '(b', i') := can_parallel fl in Bool.eqb b b' && Nat.eqb i i') in
+  (fix go (n : nat) (l : list (list kind * list dpinfo * (bool * nat))) : list nat :=
+     match l with
+     | [] => []
+     | c :: t => (if ok c then [] else [n]) ++ go (S n) t
+     end) O cases.
+Definition chk_planner_ok (cases : list (list kind * list dpinfo * (bool * nat))) : bool :=
+  match chk_planner cases with [] => true | _ => false end.
